@@ -26,6 +26,7 @@ logging.getLogger("pkgcore").setLevel(logging.ERROR)
 from . import core  # noqa: E402
 
 HERE = os.path.dirname(os.path.dirname(os.path.abspath(__file__)))
+_LEAKED_POOL = None
 DEFAULT_BUDGET = {"quick": 50, "thorough": 900}
 
 
@@ -224,7 +225,8 @@ def main(argv=None):
         grace = float(os.environ.get("VERIF_HARD_GRACE", str(max(90.0, 0.75 * budget))))
         hard_deadline = deadline + grace
         abandoned = []
-        with mp.Pool(jobs, maxtasksperchild=1, initializer=_reset_signals) as pool:
+        pool = mp.Pool(jobs, maxtasksperchild=1, initializer=_reset_signals)
+        if True:
             pending = {i: pool.apply_async(_worker, (x,)) for i, x in enumerate(args)}
             while pending:
                 for i in [i for i, ar in pending.items() if ar.ready()]:
@@ -237,14 +239,20 @@ def main(argv=None):
                     break
                 time.sleep(0.2)
             if pending:
+                # abandon: kill the workers with their process groups. Pool.terminate() must NOT be
+                # called afterwards: a worker killed while holding the task-queue lock makes it
+                # deadlock; the pool is leaked and the process leaves through os._exit (see _exit_now)
                 import signal
 
+                global _LEAKED_POOL
+                _LEAKED_POOL = pool
                 for proc in list(getattr(pool, "_pool", [])):
                     try:
                         os.killpg(proc.pid, signal.SIGKILL)
                     except OSError:
                         pass
-            pool.terminate()
+            else:
+                pool.terminate()
         if abandoned:
             # pick up what the abandoned tasks had recorded so far (checkpoints written every few seconds)
             import pickle
@@ -378,5 +386,15 @@ def write_evidence(mod, pid, tier, seed, tot, wall, known_seen, new_viol):
     os.replace(tmp, os.path.join(d, f"{pid}.json"))
 
 
+def _exit_now(rc):
+    """leave without running multiprocessing's atexit handlers (they can deadlock on a pool whose
+    workers had to be killed)"""
+    try:
+        sys.stdout.flush()
+        sys.stderr.flush()
+    finally:
+        os._exit(rc)
+
+
 if __name__ == "__main__":
-    sys.exit(main())
+    _exit_now(main())
